@@ -72,13 +72,17 @@ pub fn scratch_dir() -> String {
 /// `ShmWriter::new` never closes the descriptor it maps from (one leaked fd per call). Harmless for
 /// the daemon, fatal for a harness that creates thousands of writers: close every descriptor of this
 /// process that still refers to `path`.
-pub fn close_leaked(path: &str) {
+pub fn close_leaked(path: &str) { close_leaked_os(std::ffi::OsStr::new(path)) }
+
+pub fn close_leaked_os(path: &std::ffi::OsStr) {
+    use std::os::unix::ffi::OsStrExt;
     if let Ok(rd) = std::fs::read_dir("/proc/self/fd") {
         let fds: Vec<i32> = rd.filter_map(|e| e.ok()).filter_map(|e| {
             let fd: i32 = e.file_name().to_str()?.parse().ok()?;
             let target = std::fs::read_link(e.path()).ok()?;
-            let t = target.to_str()?.trim_end_matches(" (deleted)").to_string();
-            if t == path { Some(fd) } else { None }
+            let t = target.as_os_str().as_bytes();
+            let t = t.strip_suffix(b" (deleted)").unwrap_or(t);
+            if t == path.as_bytes() { Some(fd) } else { None }
         }).collect();
         for fd in fds { unsafe { libc::close(fd); } }
     }
